@@ -156,7 +156,7 @@ func runSelfTest(r *R, repo string, seed int, max int) map[string]interface{} {
 	defer os.RemoveAll(tmp)
 	self, _ := os.Executable()
 	var wg sync.WaitGroup
-	sem := make(chan struct{}, 10)
+	sem := make(chan struct{}, 8)
 	for i, m := range ms {
 		wg.Add(1)
 		go func(i int, m *mutant) {
@@ -174,7 +174,7 @@ func runSelfTest(r *R, repo string, seed int, max int) map[string]interface{} {
 				os.WriteFile(dir+"/known_findings.txt", b, 0o644)
 			}
 			cmd := exec.Command(self, "-prop", r.Prop, "-tier", "quick", "-repo", repo, "-verif", dir, "-overlay", dir+"/overlay.json")
-			cmd.Env = append(os.Environ(), "ARVCHECK_SELFTEST=1")
+			cmd.Env = append(os.Environ(), "ARVCHECK_SELFTEST=1", "GOMAXPROCS=2", "GOGC=200")
 			outb, _ := cmd.CombinedOutput()
 			code := cmd.ProcessState.ExitCode()
 			switch code {
